@@ -55,6 +55,7 @@ type mtbSlot struct {
 	Idx   idxClass `json:"idx"`
 	Item  string   `json:"item"`
 	Proof []string `json:"proof"`
+	Dev   []int    `json:"dev"`
 }
 type mtbOp struct {
 	Batch struct {
